@@ -402,6 +402,13 @@ pub fn certainly_invalid(scn: &Scenario) -> Option<&'static str> {
     if !last.is_empty() && last.chars().all(|c| c == '^') {
         return Some("stray characters end the main module");
     }
+    let body = t.replace("\r\n", "\n");
+    let body = body.trim_end_matches('\n');
+    for (_, trailer) in hist::POISON_TRAILERS {
+        if body == *trailer || body.ends_with(&format!("\n{trailer}")) {
+            return Some("the main module ends in statements that no program may hold");
+        }
+    }
     // a well-formed last statement whose status is no HTTP status: whatever precedes it either
     // is rejected itself or leaves this statement to be rejected
     let last_line = t.trim_end_matches(['\n', '\r']).rsplit(['\n', '\r']).next().unwrap_or("");
